@@ -40,6 +40,7 @@ except Exception:                     # pragma: no cover
 
 PROP = "C09"
 KEY_M = "m-prefix-export-named-fN-collides"
+KEY_DS = "data-segment-array-undeclared-in-split-file"
 TS = (1, 2, 3, 16)
 
 
@@ -343,7 +344,10 @@ def run(tier):
                 msamples.append({"module": res["id"], "functions": res["functions"], "w2c2_runs": res["runs"], "option_combinations": res["combos"],
                                  "e2e_runs": res["e2e_runs"], "calls": res.get("ncalls")})
             for p in res["problems"][:3]:
-                chk.violation("%s:%s:%s" % (p["kind"], re.sub(r"-[ft] \d+", lambda mm: mm.group(0), p["opts"]).replace(" ", ""), res["id"]),
+                key = "%s:%s:%s" % (p["kind"], p["opts"].replace(" ", ""), res["id"])
+                if p["kind"] in ("file-does-not-compile-alone", "e2e-build_error") and re.search(r"[‘'`]d\d+[’'`] undeclared|undeclared identifier 'd\d+'", str(p["detail"])):
+                    key = KEY_DS       # one defect, many modules/options
+                chk.violation(key,
                               "w2c2 %s on module %s: %s: %r" % (p["opts"], res["id"], p["kind"], p["detail"]),
                               {"module": res["id"], "spec": res["spec"], "opts": p["opts"], "problem": p,
                                "replay_cmd": "python3 tools/check.py C09 --replay <this file>"}, True)
